@@ -179,7 +179,7 @@ def match_arms(body, where):
 #   place  ::= ctx.f | ctx.f[INT] | ctx.f[md::Enum::Variant as usize]
 # with Rust's precedences and a width for every node (integer literals take the width of the other operand).
 # Arithmetic that can trap or wrap (+ - * / %, method calls) is NOT accepted: the translator aborts.
-TOK = re.compile(r"\s*(0x[0-9a-fA-F_]+(?:u\d+|usize)?|\d[\d_]*(?:u\d+|usize)?|[A-Za-z_][A-Za-z0-9_]*(?:::[A-Za-z_][A-Za-z0-9_]*)*"
+TOK = re.compile(r"\s*(\"[A-Za-z0-9_$.]*\"|0x[0-9a-fA-F_]+(?:u\d+|usize)?|\d[\d_]*(?:u\d+|usize)?|[A-Za-z_][A-Za-z0-9_]*(?:::[A-Za-z_][A-Za-z0-9_]*)*"
                  r"|<<|>>|==|!=|&&|\|\||[-+*/%&|^!()\[\]{}.;=<>,])")
 
 
@@ -363,9 +363,16 @@ class ExprParser:
             return ("blit", "bool", tok == "true")
         if tok == "which":
             # the validity set of `if let MinidumpContextValidity::Some(ref which) = valid`
-            for want in (".", "contains", "(", "reg", ")"):
+            for want in (".", "contains", "("):
                 self.take(want)
-            return ("bvar", "bool", "$contains")
+            arg = self.take()
+            self.take(")")
+            if arg == "reg":
+                return ("bvar", "bool", "$contains")
+            lm = re.fullmatch(STR, arg)
+            if not lm:
+                self.bad("which.contains(%s)" % arg)
+            return ("bvar", "bool", "$has:" + lm.group(1))      # membership of a literal name
         if tok == "get" and self.recv == "$size":
             # MinidumpContext::register_size: `get(ctx)` = std::mem::size_of::<T::Register>() (usize, 64 bits here)
             for want in ("(", "ctx", ")"):
@@ -740,13 +747,9 @@ class Tr:
                     t["valid_default"] = self.accessor(rhs, ctxname, w + " register_is_valid `_` arm", recv="self", want="bool")
                     default_seen = True
                     continue
-                alts = []
-                for a in rhs.split("||"):
-                    mm = re.fullmatch(r"which\.contains\(" + STR + r"\)", norm(a))
-                    if not mm:
-                        die(w + " register_is_valid: arm %s => %r" % (pat, rhs[:80]))
-                    alts.append(mm.group(1))
-                groups.append((parse_pats(pat, w + " register_is_valid"), alts))
+                # the arm's condition over the validity set, as an expression (which.contains("lit") / which.contains(reg), && || !)
+                cond = self.accessor(rhs, ctxname, w + " register_is_valid arm " + pat, recv="self", want="bool")
+                groups.append((parse_pats(pat, w + " register_is_valid"), cond))
             if not default_seen:
                 die(w + " register_is_valid: no `_` arm")
         t["groups"] = groups
@@ -1138,6 +1141,8 @@ def show_aexp(e):
     if k == "blit":
         return "true" if e[2] else "false"
     if k in ("var", "bvar"):
+        if e[2].startswith("$has:"):
+            return 'which.contains("%s")' % e[2][5:]
         return {"$ga": "ctx.get_register_always(reg)", "$mga": "self.get_register_always(reg)", "$size": "size_of::<Register>()", "$iv": "register_is_valid(reg, valid)",
                 "$contains": "which.contains(reg)", "$memo": "self.memoize_register(reg).is_some()"}.get(e[2], e[2])
     if k == "cast":
@@ -1256,7 +1261,8 @@ def emit(tables):
         o.append("  (* memoize_register's default searches %s::REGISTERS *)" % t["memo_tbl_of"])
         o.append("  ct_memo_tbl := %s;" % coq_list(coq_str(r) for r in t["memo_tbl"]))
         o.append("  ct_memo_cmp := %d;" % t["memo_cmp"])
-        o.append("  ct_groups := %s;" % coq_list("(%s, %s)" % (coq_list(coq_str(p) for p in ps), coq_list(coq_str(a) for a in al)) for ps, al in t["groups"]))
+        o.append("  (* register_is_valid arms: %s *)" % ("; ".join("|".join(ps) + " => " + show_aexp(b) for ps, b in t["groups"]) or "-"))
+        o.append("  ct_groups := %s;" % coq_list("(%s, %s)" % (coq_list(coq_str(p) for p in ps), coq_bexp(b)) for ps, b in t["groups"]))
         o.append("  (* register_is_valid: under All %s; under Some(which), names without an arm: %s (%s) *)"
                  % (show_aexp(t["valid_all"]), show_aexp(t["valid_default"]), "own body" if t["custom_valid"] else "trait default"))
         o.append("  (* get_register: Some(get_register_always(reg)) when %s *)" % show_aexp(t["get_cond"]))
@@ -1302,6 +1308,17 @@ def emit(tables):
     return "\n".join(o) + "\n"
 
 
+def has_names(e):
+    """the literal names a validity condition tests"""
+    if e[0] == "bvar":
+        return [e[2][5:]] if e[2].startswith("$has:") else []
+    out = []
+    for x in e[2:]:
+        if isinstance(x, tuple):
+            out += has_names(x)
+    return out
+
+
 def names_json(tables, rd):
     d = {}
     for t in tables:
@@ -1314,8 +1331,8 @@ def names_json(tables, rd):
             for p in ps + [c]:
                 if p not in names:
                     names.append(p)
-        for ps, al in t["groups"]:
-            for p in ps + al:
+        for ps, b in t["groups"]:
+            for p in ps + has_names(b):
                 if p not in names:
                     names.append(p)
         for r in t["registers"]:
